@@ -64,14 +64,16 @@ theorem hist_fold (c : Nat) (ops : List Op) (h : Hist) :
 /-- what the model may look like for child `c` after a history with registrations `h.regs` and first exit `h.fe` -/
 def Good (c : Nat) (h : Hist) (v : View) : Prop :=
   match h.regs, h.fe with
-  | [], none => h.sig = false ∧ v.sub.proc = .running ∧ v.sub.exitCb = none ∧ v.inW = false ∧ v.q = [] ∧ v.calls = [] ∧ v.futs = []
-  | [], some st => v.sub.proc = .zombie st ∧ v.sub.exitCb = none ∧ v.inW = false ∧ v.q = [] ∧ v.calls = [] ∧ v.futs = []
+  | [], none => h.sig = false ∧ v.sub.proc = .running ∧ v.sub.exitCb = none ∧ v.inW = false ∧ v.q = [] ∧ v.calls = [] ∧ v.futs = [] ∧
+      v.sub.returncode = none
+  | [], some st => v.sub.proc = .zombie st ∧ v.sub.exitCb = none ∧ v.inW = false ∧ v.q = [] ∧ v.calls = [] ∧ v.futs = [] ∧
+      v.sub.returncode = none
   | [m], none => ∃ r, h.sig = false ∧ v.sub.proc = .running ∧ v.sub.exitCb = some (r, m) ∧ v.inW = true ∧ v.init = true ∧
       v.q = [] ∧ v.calls = [] ∧ v.futs = []
   | [m], some st => ∃ r,
       (h.sig = false ∧ v.sub.proc = .zombie st ∧ v.sub.exitCb = some (r, m) ∧ v.inW = true ∧ v.init = true ∧
         v.q = [] ∧ v.calls = [] ∧ v.futs = []) ∨
-      (v.sub.proc = .reaped ∧ v.sub.exitCb = some (r, m) ∧ v.inW = false ∧ v.q = [st] ∧ v.calls = [] ∧ v.futs = []) ∨
+      (v.sub.proc = .reaped ∧ v.sub.exitCb = some (r, m) ∧ v.inW = false ∧ v.q = [.status st] ∧ v.calls = [] ∧ v.futs = []) ∨
       (v.sub.proc = .reaped ∧ v.inW = false ∧ v.q = [] ∧ v.calls = doneCalls c r st ∧ v.futs = doneFuts c r m st)
   | _, _ => True
 
@@ -117,9 +119,9 @@ theorem good_step (c : Nat) (h : Hist) (v : View) (op : Op) (hg : Good c h v) :
         · simp_all [Good, hstep, vstep]
         · refine ⟨r, Or.inr (Or.inr ?_)⟩
           cases hd : decodeStatus st with
-          | none => simp_all [hstep, vstep, vSet, doneCalls, doneFuts]
+          | none => simp_all [hstep, vstep, vItem, vSet, doneCalls, doneFuts]
           | some code =>
-            simp_all [hstep, vstep, vSet, doneCalls, doneFuts]
+            simp_all [hstep, vstep, vItem, vSet, doneCalls, doneFuts]
             try (cases futOf m code <;> rfl)
         · simp_all [Good, hstep, vstep]
           exact ⟨r, rfl, rfl⟩
@@ -160,16 +162,16 @@ theorem settle (c : Nat) (m : Mode) (st : Nat) (sig : Bool) (v : View)
   refine ⟨r, ?_⟩
   rcases hg with hg | hg | hg
   · cases hd : decodeStatus st with
-    | none => simp_all [vstep, vTry, vSet, doneCalls, doneFuts]
+    | none => simp_all [vstep, vTry, vItem, vSet, doneCalls, doneFuts]
     | some code =>
-      simp_all [vstep, vTry, vSet, doneCalls, doneFuts]
+      simp_all [vstep, vTry, vItem, vSet, doneCalls, doneFuts]
       try (cases futOf m code <;> rfl)
   · cases hd : decodeStatus st with
-    | none => simp_all [vstep, vTry, vSet, doneCalls, doneFuts]
+    | none => simp_all [vstep, vTry, vItem, vSet, doneCalls, doneFuts]
     | some code =>
-      simp_all [vstep, vTry, vSet, doneCalls, doneFuts]
+      simp_all [vstep, vTry, vItem, vSet, doneCalls, doneFuts]
       try (cases futOf m code <;> rfl)
-  · simp_all [vstep, vTry, vSet]
+  · simp_all [vstep, vTry, vItem, vSet]
 
 /-- … and if the SIGCHLD handler has already run since the exit, one drain is enough -/
 theorem settle_drain (c : Nat) (m : Mode) (st : Nat) (v : View)
@@ -182,11 +184,11 @@ theorem settle_drain (c : Nat) (m : Mode) (st : Nat) (v : View)
   rcases hg with hg | hg | hg
   · simp at hg
   · cases hd : decodeStatus st with
-    | none => simp_all [vstep, vSet, doneCalls, doneFuts]
+    | none => simp_all [vstep, vItem, vSet, doneCalls, doneFuts]
     | some code =>
-      simp_all [vstep, vSet, doneCalls, doneFuts]
+      simp_all [vstep, vItem, vSet, doneCalls, doneFuts]
       try (cases futOf m code <;> rfl)
-  · simp_all [vstep, vSet]
+  · simp_all [vstep, vItem, vSet]
 
 theorem view_settled (ops : List Op) (c : Nat) :
     view (run (ops ++ [.sigchld, .drain])) c = vstep c (vstep c (view (run ops) c) .sigchld) .drain := by
@@ -315,8 +317,8 @@ theorem reported_child_released (c : Nat) (m : Mode) (ops : List Op) (st : Nat) 
     obtain ⟨r, hg⟩ := hg
     rcases hg with hg | hg | hg
     · simp at hg
-    · cases hd : decodeStatus st <;> simp_all [vstep, vSet]
-    · simp_all [vstep, vSet]
+    · cases hd : decodeStatus st <;> simp_all [vstep, vItem, vSet]
+    · simp_all [vstep, vItem, vSet]
   have hg := good_after c ops
   rw [hreg, hfe, hsig] at hg
   have k := key _ hg
@@ -327,69 +329,128 @@ theorem reported_child_released (c : Nat) (m : Mode) (ops : List Op) (st : Nat) 
   simpa using this
 
 /-! ### at most once, for every history (re-registrations included) -/
-def Inv2 (v : View) : Prop :=
-  (v.calls.map (·.reg)).Nodup ∧ (∀ k ∈ v.calls, k.reg < v.nregs) ∧
-  (∀ r m, v.sub.exitCb = some (r, m) → r < v.nregs ∧ ∀ k ∈ v.calls, k.reg ≠ r)
+def lateRegs (q : List QI) : List Nat :=
+  q.flatMap fun qi => match qi with | .late r _ _ => [r] | .status _ => []
 
-theorem inv2_vTry (v : View) (h : Inv2 v) : Inv2 (vTry v) := by
+/-- registration numbers that have been invoked or whose invocation is scheduled (`pend`) -/
+def used (pend : List QI) (v : View) : List Nat := v.calls.map (·.reg) ++ lateRegs pend
+
+def Inv2 (pend : List QI) (v : View) : Prop :=
+  (used pend v).Nodup ∧ (∀ r ∈ used pend v, r < v.nregs) ∧
+  (∀ r m, v.sub.exitCb = some (r, m) → r < v.nregs ∧ r ∉ used pend v)
+
+theorem lateRegs_status (q : List QI) (st : Nat) : lateRegs (q ++ [.status st]) = lateRegs q := by
+  simp [lateRegs, List.flatMap_append]
+
+theorem lateRegs_late (q : List QI) (r : Nat) (m : Mode) (k : Int) : lateRegs (q ++ [.late r m k]) = lateRegs q ++ [r] := by
+  simp [lateRegs, List.flatMap_append]
+
+theorem inv2_vTry (v : View) (h : Inv2 v.q v) : Inv2 (vTry v).q (vTry v) := by
   unfold vTry
-  split <;> simpa [Inv2] using h
+  split
+  · simpa [Inv2, used, lateRegs_status] using h
+  · exact h
 
-theorem inv2_vSet (c : Nat) (v : View) (st : Nat) (h : Inv2 v) : Inv2 (vSet c v st) := by
-  unfold vSet
-  cases hd : decodeStatus st with
-  | none => exact h
-  | some code =>
-    simp only
-    cases he : v.sub.exitCb with
-    | none => simpa [Inv2, he] using h
-    | some rm =>
-      obtain ⟨r, m⟩ := rm
-      obtain ⟨h1, h2, h3⟩ := h
-      obtain ⟨h4, h5⟩ := h3 r m he
-      refine ⟨?_, ?_, ?_⟩
-      · simp only [List.map_append, List.map_cons, List.map_nil]
-        rw [List.nodup_append]
-        refine ⟨h1, by simp, ?_⟩
-        intro a ha b hb
-        simp only [List.mem_singleton] at hb
-        simp only [List.mem_map] at ha
-        obtain ⟨k, hk, rfl⟩ := ha
-        rw [hb]
-        exact h5 k hk
-      · intro k hk
-        simp only [List.mem_append, List.mem_singleton] at hk
-        rcases hk with hk | hk
-        · exact h2 k hk
-        · simpa [hk] using h4
-      · simp
+theorem inv2_vItem (c : Nat) (v : View) (qi : QI) (rest : List QI) (h : Inv2 (qi :: rest) v) :
+    Inv2 rest (vItem c v qi) := by
+  cases qi with
+  | late r m code =>
+    have hu : used rest (vItem c v (.late r m code)) = used (.late r m code :: rest) v := by
+      simp [used, vItem, vLate, lateRegs, List.flatMap_cons]
+    obtain ⟨h1, h2, h3⟩ := h
+    exact ⟨by rw [hu]; exact h1, by rw [hu]; exact h2, by rw [hu]; exact h3⟩
+  | status st =>
+    have hu0 : used (.status st :: rest) v = used rest v := by simp [used, lateRegs, List.flatMap_cons]
+    rw [Inv2, hu0] at h
+    simp only [vItem]
+    unfold vSet
+    cases hd : decodeStatus st with
+    | none => exact h
+    | some code =>
+      simp only
+      cases he : v.sub.exitCb with
+      | none =>
+        obtain ⟨h1, h2, -⟩ := h
+        exact ⟨h1, h2, by simp⟩
+      | some rm =>
+        obtain ⟨r, m⟩ := rm
+        obtain ⟨h1, h2, h3⟩ := h
+        obtain ⟨h4, h5⟩ := h3 r m he
+        have h1' : (v.calls.map (·.reg) ++ lateRegs rest).Nodup := h1
+        have h2' : ∀ x ∈ v.calls.map (·.reg) ++ lateRegs rest, x < v.nregs := h2
+        have h5' : r ∉ v.calls.map (·.reg) ++ lateRegs rest := h5
+        refine ⟨?_, ?_, by simp⟩
+        · simp only [used, List.map_append, List.map_cons, List.map_nil, List.append_assoc, List.singleton_append]
+          obtain ⟨nA, nB, hAB⟩ := List.nodup_append.mp h1'
+          simp only [List.mem_append, not_or] at h5'
+          rw [List.nodup_append]
+          refine ⟨nA, List.nodup_cons.mpr ⟨h5'.2, nB⟩, ?_⟩
+          intro a ha b hb
+          simp only [List.mem_cons] at hb
+          rcases hb with hb | hb
+          · subst hb
+            exact fun hab => h5'.1 (hab ▸ ha)
+          · exact hAB a ha b hb
+        · simp only [used, List.map_append, List.map_cons, List.map_nil, List.append_assoc, List.singleton_append]
+          intro x hx
+          simp only [List.mem_append, List.mem_cons] at hx
+          rcases hx with hx | hx | hx
+          · exact h2' x (List.mem_append_left _ hx)
+          · rw [hx]; exact h4
+          · exact h2' x (List.mem_append_right _ hx)
 
-theorem inv2_fold (c : Nat) (q : List Nat) (v : View) (h : Inv2 v) : Inv2 (q.foldl (vSet c) v) := by
+theorem inv2_fold (c : Nat) (q : List QI) (v : View) (h : Inv2 q v) : Inv2 [] (q.foldl (vItem c) v) := by
   induction q generalizing v with
   | nil => exact h
-  | cons st q ih => exact ih _ (inv2_vSet c v st h)
+  | cons qi q ih => exact ih _ (inv2_vItem c v qi q h)
 
-theorem inv2_step (c : Nat) (v : View) (op : Op) (h : Inv2 v) : Inv2 (vstep c v op) := by
+theorem inv2_step (c : Nat) (v : View) (op : Op) (h : Inv2 v.q v) : Inv2 (vstep c v op).q (vstep c v op) := by
   cases op with
   | exit d st =>
     simp only [vstep]
     split
-    · split <;> simpa [Inv2] using h
+    · split
+      · exact h
+      · exact h
     · exact h
   | reg d m =>
     simp only [vstep]
     obtain ⟨h1, h2, h3⟩ := h
     split
-    · apply inv2_vTry
-      refine ⟨h1, fun k hk => Nat.lt_succ_of_lt (h2 k hk), ?_⟩
-      intro r m' he
-      simp only [Option.some.injEq, Prod.mk.injEq] at he
-      obtain ⟨he1, -⟩ := he
-      subst he1
-      refine ⟨Nat.lt_succ_self _, fun k hk => ?_⟩
-      have := h2 k hk
-      omega
-    · refine ⟨h1, fun k hk => Nat.lt_succ_of_lt (h2 k hk), ?_⟩
+    · split
+      · -- registration after the report: its number is fresh
+        rename_i code hrc
+        have hu : used (v.q ++ [QI.late v.nregs m code])
+            { v with nregs := v.nregs + 1, init := true, q := v.q ++ [QI.late v.nregs m code] } = used v.q v ++ [v.nregs] := by
+          simp [used, lateRegs_late]
+        have hfresh : v.nregs ∉ used v.q v := fun hx => Nat.lt_irrefl _ (h2 _ hx)
+        refine ⟨?_, ?_, ?_⟩
+        · rw [hu, List.nodup_append]
+          refine ⟨h1, by simp, ?_⟩
+          intro a ha b hb
+          simp only [List.mem_singleton] at hb
+          subst hb
+          exact fun hab => hfresh (hab ▸ ha)
+        · rw [hu]
+          intro x hx
+          simp only [List.mem_append, List.mem_singleton] at hx
+          rcases hx with hx | hx
+          · exact Nat.lt_succ_of_lt (h2 x hx)
+          · rw [hx]; exact Nat.lt_succ_self _
+        · intro r m' he
+          rw [hu]
+          obtain ⟨g1, g2⟩ := h3 r m' he
+          refine ⟨Nat.lt_succ_of_lt g1, ?_⟩
+          simp only [List.mem_append, List.mem_singleton, not_or]
+          exact ⟨g2, Nat.ne_of_lt g1⟩
+      · apply inv2_vTry
+        refine ⟨h1, fun r hr => Nat.lt_succ_of_lt (h2 r hr), ?_⟩
+        intro r m' he
+        simp only [Option.some.injEq, Prod.mk.injEq] at he
+        obtain ⟨he1, -⟩ := he
+        subst he1
+        exact ⟨Nat.lt_succ_self _, fun hx => Nat.lt_irrefl _ (h2 _ hx)⟩
+    · refine ⟨h1, fun r hr => Nat.lt_succ_of_lt (h2 r hr), ?_⟩
       intro r m' he
       exact ⟨Nat.lt_succ_of_lt (h3 r m' he).1, (h3 r m' he).2⟩
   | sigchld =>
@@ -398,20 +459,20 @@ theorem inv2_step (c : Nat) (v : View) (op : Op) (h : Inv2 v) : Inv2 (vstep c v 
     · exact inv2_vTry v h
     · exact h
   | drain =>
-    simp only [vstep]
-    exact inv2_fold c v.q _ (by simpa [Inv2] using h)
+    simp only [vstep, fold_vItem_q]
+    exact inv2_fold c v.q _ h
 
 /-- **callback_at_most_once**: in every history whatsoever, no registration's callback is invoked twice. -/
 theorem callback_at_most_once (c : Nat) (ops : List Op) : ((callsOf (run ops) c).map (·.reg)).Nodup := by
-  have h0 : Inv2 (view init c) := by simp [Inv2, view, init]
-  have : ∀ (ops : List Op) (v : View), Inv2 v → Inv2 (ops.foldl (vstep c) v) := by
+  have h0 : Inv2 (view init c).q (view init c) := by simp [Inv2, used, lateRegs, view, init]
+  have : ∀ (ops : List Op) (v : View), Inv2 v.q v → Inv2 (ops.foldl (vstep c) v).q (ops.foldl (vstep c) v) := by
     intro ops
     induction ops with
     | nil => exact fun v h => h
     | cons op ops ih => exact fun v h => ih _ (inv2_step c v op h)
   have h := this ops _ h0
   rw [← view_run_gen] at h
-  exact h.1
+  exact (List.nodup_append.mp h.1).1
 
 /-! ### signal deaths through `wait_for_exit` -/
 
@@ -445,40 +506,52 @@ example : Spec.regsOf 0 [.reg 0 (.wait true), .exit 0 (128 + 11), .sigchld] = [.
 example : (futsOf (run ([.reg 0 (.wait true), .exit 0 (128 + 11), .sigchld] ++ [.drain])) 0).map (·.2.2)
     = [.calledProcessError (-11)] := by decide
 
-/-! ### any number of registrations: replacement before the report, re-registration after it -/
+/-! ### any number of registrations: replacement before the report, registration after it -/
 
 /-- the exit of `c` (if any) has been noticed by tornado: the SIGCHLD handler ran at some point after it, or the child
 was registered at some point after it (`set_exit_callback` reaps immediately) -/
 def Noticed (c : Nat) (ops : List Op) : Prop :=
   Spec.firstExit c ops = none ∨ Spec.sigAfter c ops = true ∨ regAfter c ops = true
 
-/-- **exit_reported_at_most_once**: in every history whatsoever — any number of registrations, re-registrations,
-duplicate exit events, handler runs — at most ONE exit-callback invocation and at most one settled `wait_for_exit`
-future exist per child (stronger than `callback_at_most_once`, which is per registration). -/
-theorem exit_reported_at_most_once (c : Nat) (ops : List Op) :
-    (callsOf (run ops) c).length ≤ 1 ∧ (futsOf (run ops) c).length ≤ 1 :=
-  goodN_le_one c _ _ (goodN_after c ops)
+theorem expect_eq (c : Nat) (ops : List Op) :
+    Spec.expect c ops = ((Spec.firstExit c ops).bind decodeStatus).toList := by
+  unfold Spec.expect
+  cases Spec.firstExit c ops with
+  | none => rfl
+  | some st => simp [status_decoding]
+
+/-- **every_invocation_carries_the_code**: in every history whatsoever — any number of registrations, replacements,
+registrations after the report, duplicate exit events, handler runs — every exit-callback invocation of a child was made
+with the decoded status of its (first) exit, and with `_exit_callback` already cleared. -/
+theorem every_invocation_carries_the_code (c : Nat) (ops : List Op) :
+    ∀ k ∈ callsOf (run ops) c, [k.code] = Spec.expect c ops ∧ k.cleared = true := by
+  intro k hk
+  obtain ⟨-, h2, h3⟩ := goodN_calls_code c _ _ (goodN_after c ops) k hk
+  refine ⟨?_, h3⟩
+  rw [expect_eq]
+  simp only at h2
+  rw [← h2]
+  rfl
 
 /-- **callback_exactly_once_any_regs** (extends `callback_exactly_once` from one registration to any number ≥ 1, and
 from "SIGCHLD after the exit" to "SIGCHLD *or a registration* after the exit"): after one more drain the child's exit
-has been reported by exactly one callback invocation in total, with the decoded status (none if it has not exited),
-`_exit_callback` cleared; exactly one of the child's `wait_for_exit` futures (if the reporting registration was one)
-is settled, as the property demands for that registration's `raise_error`. -/
+has been reported — at least one invocation iff it has exited (none otherwise), every invocation with the decoded
+status and `_exit_callback` cleared, no registration invoked twice; the first settled `wait_for_exit` future is the
+reporting registration's, settled as the property demands for its `raise_error` (further entries: registrations made
+after the report, see `late_registration_fires`). -/
 theorem callback_exactly_once_any_regs (c : Nat) (ops : List Op) (hreg : Spec.regsOf c ops ≠ [])
     (hn : Noticed c ops) :
-    (callsOf (run (ops ++ [.drain])) c).map (·.code) = Spec.expect c ops ∧
-    (∀ k ∈ callsOf (run (ops ++ [.drain])) c, k.cleared = true) ∧
-    ∃ m ∈ Spec.regsOf c ops,
-      (futsOf (run (ops ++ [.drain])) c).map (·.2.2) = (Spec.expect c ops).filterMap (Spec.futOutcome m) := by
+    (∀ k ∈ callsOf (run (ops ++ [.drain])) c, [k.code] = Spec.expect c ops ∧ k.cleared = true) ∧
+    (Spec.expect c ops ≠ [] → callsOf (run (ops ++ [.drain])) c ≠ []) ∧
+    ((callsOf (run (ops ++ [.drain])) c).map (·.reg)).Nodup ∧
+    ∃ m ∈ Spec.regsOf c ops, ∃ lf,
+      (futsOf (run (ops ++ [.drain])) c).map (·.2.2) = (Spec.expect c ops).filterMap (Spec.futOutcome m) ++ lf := by
   have hg := goodN_step c _ _ .drain (goodN_after c ops)
   have hc : callsOf (run (ops ++ [.drain])) c = (view (run (ops ++ [.drain])) c).calls := rfl
   have hf : futsOf (run (ops ++ [.drain])) c = (view (run (ops ++ [.drain])) c).futs := rfl
-  rw [hc, hf, view_drained]
-  have hexp : Spec.expect c ops = ((Spec.firstExit c ops).bind decodeStatus).toList := by
-    unfold Spec.expect
-    cases Spec.firstExit c ops with
-    | none => rfl
-    | some st => simp [status_decoding]
+  have hnd := callback_at_most_once c (ops ++ [.drain])
+  rw [hc] at hnd
+  rw [hc, hf, view_drained] at *
   have hfo : ∀ m, Spec.futOutcome m = futOf m := fun m => funext fun code => (futOf_eq_spec m code).symm
   have := settledN c _ _ hg (drain_q_nil c _) hreg (by
     rcases hn with h | h | h
@@ -486,9 +559,17 @@ theorem callback_exactly_once_any_regs (c : Nat) (ops : List Op) (hreg : Spec.re
     · exact Or.inr (Or.inl h)
     · exact Or.inr (Or.inr h))
   simp only [hstepN] at this
-  obtain ⟨h1, h2, m, hm, h3⟩ := this
-  rw [hexp]
-  exact ⟨h1, h2, m, hm, by rw [hfo m]; exact h3⟩
+  obtain ⟨h1, h2, m, hm, lf, h3⟩ := this
+  rw [expect_eq]
+  refine ⟨?_, ?_, hnd, m, hm, lf, by rw [hfo m]; exact h3⟩
+  · intro k hk
+    obtain ⟨g1, g2⟩ := h1 k hk
+    exact ⟨by rw [← g1]; rfl, g2⟩
+  · intro hne
+    apply h2
+    intro h0
+    rw [h0] at hne
+    exact hne rfl
 
 -- replacement before the report: two registrations, then exit, handler, drain → one call (of the later one)
 example : Spec.regsOf 0 [.reg 0 .cb, .reg 0 (.wait false), .exit 0 256, .sigchld] ≠ [] ∧
@@ -500,78 +581,211 @@ example : (callsOf (run ([.reg 0 .cb, .reg 0 (.wait false), .exit 0 256, .sigchl
 example : Noticed 0 [.exit 0 9, .reg 0 .cb] ∧ ¬ Delivered 0 [.exit 0 9, .reg 0 .cb] := by
   simp [Noticed, Delivered, regAfter, Spec.regsOf, Spec.firstExit, Spec.sigAfter, Spec.isSigchld]
 
-/-- **drain_fires_installed_callback**: which callback a loop iteration fires — exactly the one installed in
-`_exit_callback` at that moment (i.e. the child's latest registration), with the decoded queued status. -/
+/-- **drain_fires_installed_callback**: which callbacks a loop iteration fires for child `c`, in queue order — for a
+queued wait status exactly the callback installed in `_exit_callback` at that moment (i.e. the child's latest
+registration) with the decoded status; for each registration made after the report, that registration's callback with
+the stored code. -/
 theorem drain_fires_installed_callback (c : Nat) (ops : List Op) :
     callsOf (run (ops ++ [.drain])) c = callsOf (run ops) c ++
-      (match (view (run ops) c).q, ((run ops).subs c).exitCb with
-       | [st], some (r, _) => doneCalls c r st
-       | _, _ => []) := by
+      (view (run ops) c).q.flatMap (firedBy c ((run ops).subs c).exitCb) := by
   have hc : callsOf (run (ops ++ [.drain])) c = (view (run (ops ++ [.drain])) c).calls := rfl
   rw [hc, view_drained]
   exact drain_fires_installed c _ _ (goodN_after c ops)
 
-/-- **registration_after_exit**: the precise behaviour of a registration made after the child's exit (first *or*
-later registration; decodable status): at the next loop iteration the new callback fires — exactly once, with the
-decoded code, no SIGCHLD needed — **iff** the exit had not already been reported to an earlier registration; if it
-had, the invocation log does not change: the new callback does not fire. -/
+/-- **registration_after_exit**: a registration made after the child's exit (first *or* later registration; decodable
+status): at the next loop iteration the new callback fires — exactly once, with the decoded code, no SIGCHLD needed —
+whether or not the exit had already been reported to an earlier registration (before it, the callbacks of earlier
+such registrations still waiting on the loop run). -/
 theorem registration_after_exit (c : Nat) (m : Mode) (ops : List Op) (st : Nat) (code : Int)
     (hfe : Spec.firstExit c ops = some st) (hcode : Spec.returncode st = some code) :
     callsOf (run (ops ++ [.reg c m, .drain])) c =
-      if callsOf (run ops) c = [] then [{ child := c, reg := (run ops).nregs, code := code, cleared := true }]
-      else callsOf (run ops) c := by
+      callsOf (run ops) c ++ (view (run ops) c).q.flatMap (lateCall c true) ++
+        [{ child := c, reg := (run ops).nregs, code := code, cleared := true }] := by
   have hv : view (run (ops ++ [.reg c m, .drain])) c = vstep c (vstep c (view (run ops) c) (.reg c m)) .drain := by
     simp [run, List.foldl_append, view_step]
   have hc : callsOf (run (ops ++ [.reg c m, .drain])) c = (view (run (ops ++ [.reg c m, .drain])) c).calls := rfl
   rw [hc, hv]
   exact reg_after_exit_view c _ _ m st code (goodN_after c ops) hfe (by rw [status_decoding]; exact hcode)
 
-/-- **reregistration_after_report_never_fires**: once a callback of child `c` has fired, a new registration
-(`set_exit_callback` or `wait_for_exit`) is never invoked, whatever happens afterwards (`more`: further exits events,
-SIGCHLD handler runs, drains, registrations): the invocation log and the settled futures of `c` stay what they were —
-a late `wait_for_exit` future stays pending forever.  If `c` is not registered yet again, the dead callback stays
-installed in `_exit_callback` and `c` stays in `Subprocess._waiting` (it is never released). -/
-theorem reregistration_after_report_never_fires (c : Nat) (m' : Mode) (ops more : List Op)
-    (hfired : callsOf (run ops) c ≠ []) :
-    callsOf (run (ops ++ .reg c m' :: more)) c = callsOf (run ops) c ∧
-    futsOf (run (ops ++ .reg c m' :: more)) c = futsOf (run ops) c ∧
-    (Spec.regsOf c more = [] →
-      ((run (ops ++ .reg c m' :: more)).subs c).exitCb = some ((run ops).nregs, m') ∧
-      (run (ops ++ .reg c m' :: more)).waiting.contains c = true) := by
-  obtain ⟨hp, hq⟩ := fired_reported c _ _ (goodN_after c ops) hfired
-  have hv : view (run (ops ++ .reg c m' :: more)) c = more.foldl (vstep c) (vstep c (view (run ops) c) (.reg c m')) := by
-    simp [run, List.foldl_append, view_step, view_run_gen]
-  have hc : callsOf (run (ops ++ .reg c m' :: more)) c = (view (run (ops ++ .reg c m' :: more)) c).calls := rfl
-  have hf : futsOf (run (ops ++ .reg c m' :: more)) c = (view (run (ops ++ .reg c m' :: more)) c).futs := rfl
-  have hs : (run (ops ++ .reg c m' :: more)).subs c = (view (run (ops ++ .reg c m' :: more)) c).sub := rfl
-  have hw : (run (ops ++ .reg c m' :: more)).waiting.contains c = (view (run (ops ++ .reg c m' :: more)) c).inW := rfl
-  obtain ⟨g1, g2, g3, g4⟩ := reported_absorbing c _ (.reg c m') hp hq
-  obtain ⟨k1, k2, k3, k4⟩ := reported_absorbing_run c more _ g1 g2
-  rw [hc, hf, hs, hw, hv]
-  refine ⟨k3.trans g3, k4.trans g4, fun hno => ?_⟩
-  obtain ⟨n1, n2⟩ := reported_absorbing_noreg_run c more _ g1 g2 hno
-  rw [n1, n2]
-  have hp' : ((run ops).subs c).proc = .reaped := hp
-  simp [vstep, vTry, hp', view]
+/-- **late_registration_fires** (the repaired behaviour; before fix 069f67f the late callback was never called): once a
+callback of child `c` has fired, a new registration — `set_exit_callback` or `wait_for_exit`, registration number
+`(run ops).nregs` — is called too, whatever happens in between (`more`: further exit events, SIGCHLD handler runs,
+drains, registrations): after the next loop iteration it has been invoked with the decoded status of the exit, with
+`_exit_callback` cleared, and not twice (no registration number occurs twice in the log); its `wait_for_exit` future is
+settled as the property demands.  The registration itself stores nothing: `_waiting` and `_exit_callback` are untouched
+(no leak). -/
+theorem late_registration_fires (c : Nat) (m : Mode) (ops more : List Op) (hfired : callsOf (run ops) c ≠ []) :
+    ∃ st code, Spec.firstExit c ops = some st ∧ Spec.returncode st = some code ∧
+      ({ child := c, reg := (run ops).nregs, code := code, cleared := true } : Call)
+        ∈ callsOf (run (ops ++ .reg c m :: more ++ [.drain])) c ∧
+      ((callsOf (run (ops ++ .reg c m :: more ++ [.drain])) c).map (·.reg)).Nodup ∧
+      (∀ f, Spec.futOutcome m code = some f →
+        (c, (run ops).nregs, f) ∈ futsOf (run (ops ++ .reg c m :: more ++ [.drain])) c) ∧
+      (run (ops ++ [.reg c m])).waiting = (run ops).waiting ∧
+      ((run (ops ++ [.reg c m])).subs c).exitCb = none := by
+  obtain ⟨st, code, hfe, hdec, hrc, hcb⟩ := fired_reported c _ _ (goodN_after c ops) hfired
+  have hrc' : ((run ops).subs c).returncode = some code := hrc
+  have hcb' : ((run ops).subs c).exitCb = none := hcb
+  refine ⟨st, code, hfe, by rw [← status_decoding]; exact hdec, ?_, callback_at_most_once c _, ?_, ?_, ?_⟩
+  all_goals try
+    (have hv : view (run (ops ++ .reg c m :: more ++ [.drain])) c =
+        vstep c (more.foldl (vstep c) (vstep c (view (run ops) c) (.reg c m))) .drain := by
+      simp [run, List.foldl_append, view_step, view_run_gen])
+  · have hl0 : Live c (run ops).nregs m code (vstep c (view (run ops) c) (.reg c m)) := by
+      refine Or.inl ?_
+      have h1 : (view (run ops) c).sub.returncode = some code := hrc
+      simp only [vstep, ↓reduceIte, h1]
+      exact ⟨by simp [view], hcb, by simp [h1]⟩
+    have hl := live_step c _ m code _ .drain (live_run c _ m code more _ hl0)
+    have hc : callsOf (run (ops ++ .reg c m :: more ++ [.drain])) c =
+        (view (run (ops ++ .reg c m :: more ++ [.drain])) c).calls := rfl
+    rw [hc, hv]
+    rcases hl with ⟨h0, -⟩ | ⟨h0, -⟩
+    · rw [drain_q_nil] at h0; simp at h0
+    · exact h0
+  · have hl0 : Live c (run ops).nregs m code (vstep c (view (run ops) c) (.reg c m)) := by
+      refine Or.inl ?_
+      have h1 : (view (run ops) c).sub.returncode = some code := hrc
+      simp only [vstep, ↓reduceIte, h1]
+      exact ⟨by simp [view], hcb, by simp [h1]⟩
+    have hl := live_step c _ m code _ .drain (live_run c _ m code more _ hl0)
+    have hf : futsOf (run (ops ++ .reg c m :: more ++ [.drain])) c =
+        (view (run (ops ++ .reg c m :: more ++ [.drain])) c).futs := rfl
+    rw [hf, hv]
+    intro f hfo
+    rw [← futOf_eq_spec] at hfo
+    rcases hl with ⟨h0, -⟩ | ⟨-, h0⟩
+    · rw [drain_q_nil] at h0; simp at h0
+    · exact h0 f hfo
+  · have hs : run (ops ++ [.reg c m]) = step (run ops) (.reg c m) := by simp [run, List.foldl_append]
+    rw [hs]
+    simp only [step, hrc']
+  · have hs : run (ops ++ [.reg c m]) = step (run ops) (.reg c m) := by simp [run, List.foldl_append]
+    rw [hs]
+    simp only [step, hrc']
+    exact hcb'
 
-/-- the wish "a second registration made after the first callback fired is called as well (exactly once)" -/
-def reregistration_after_report_fires_full : Prop :=
-  ∀ (c : Nat) (m m' : Mode) (ops : List Op), Spec.regsOf c ops = [m] → callsOf (run ops) c ≠ [] →
-    (callsOf (run (ops ++ [.reg c m', .sigchld, .drain])) c).length = 2
-
-/-- … is false for `Subprocess` as it is: `waitpid` on the already reaped child raises ChildProcessError, which
-`_try_cleanup_process` swallows, so the late callback is never scheduled. -/
-theorem reregistration_after_report_fires_refuted : ¬ reregistration_after_report_fires_full := by
-  intro h
-  have h2 := h 0 .cb (.wait true) [.reg 0 .cb, .exit 0 256, .sigchld, .drain] (by decide) (by decide)
-  have h1 := (reregistration_after_report_never_fires 0 (.wait true) [.reg 0 .cb, .exit 0 256, .sigchld, .drain]
-    [.sigchld, .drain] (by decide)).1
-  rw [h1] at h2
-  revert h2
+-- the history the reviewer gave: callback, exit, report, then a late `wait_for_exit(raise_error=True)` of exit code 1
+example : callsOf (run [.reg 0 .cb, .exit 0 256, .sigchld, .drain]) 0 ≠ [] := by decide
+example : (futsOf (run ([.reg 0 .cb, .exit 0 256, .sigchld, .drain] ++ .reg 0 (.wait true) :: [.sigchld] ++ [.drain])) 0)
+    = [(0, 1, .calledProcessError 1)] := by decide
+example : (run ([.reg 0 .cb, .exit 0 256, .sigchld, .drain] ++ .reg 0 (.wait true) :: [.sigchld] ++ [.drain])).waiting = [] := by
   decide
 
-example : callsOf (run [.reg 0 .cb, .exit 0 256, .sigchld, .drain]) 0 ≠ [] := by decide
-example : (futsOf (run ([.reg 0 .cb, .exit 0 256, .sigchld, .drain] ++ .reg 0 (.wait true) :: [.sigchld, .drain, .sigchld, .drain])) 0)
-    = [] := by decide
+/-! ### a `wait_for_exit` future replaced before the report (known finding) -/
+def isWait : Mode → Bool
+  | .wait _ => true
+  | .cb => false
+
+/-- the property's reading "every `wait_for_exit` resolves": once the (decodable) exit of `c` has been delivered and the
+loop has run, as many futures of `c` are settled as `wait_for_exit` calls were made -/
+def every_wait_future_settles_full : Prop :=
+  ∀ (c : Nat) (ops : List Op) (st : Nat), Spec.firstExit c ops = some st → st % 128 ≠ 127 → Delivered c ops →
+    (futsOf (run (ops ++ [.drain])) c).length = ((Spec.regsOf c ops).filter isWait).length
+
+/-- … holds when the child is registered once -/
+theorem every_wait_future_settles_partial (c : Nat) (m : Mode) (ops : List Op) (st : Nat)
+    (hreg : Spec.regsOf c ops = [m]) (hfe : Spec.firstExit c ops = some st) (hst : st % 128 ≠ 127)
+    (hdel : Delivered c ops) :
+    (futsOf (run (ops ++ [.drain])) c).length = ((Spec.regsOf c ops).filter isWait).length := by
+  have h := congrArg List.length (wait_for_exit_outcome c m ops hreg hdel)
+  simp only [List.length_map] at h
+  rw [h, hreg]
+  obtain ⟨code, hc⟩ : ∃ code, Spec.returncode st = some code := by
+    unfold Spec.returncode
+    by_cases h0 : st % 128 = 0 <;> simp [h0, hst]
+  simp only [Spec.expect, hfe, hc, Option.toList_some]
+  cases m with
+  | cb => simp [Spec.futOutcome, isWait]
+  | wait re => cases re <;> simp [Spec.futOutcome] <;> rfl
+
+/-- … and is false for `Subprocess` as it is: `wait_for_exit` stores its callback in the single `_exit_callback` slot, so a
+later `set_exit_callback`/`wait_for_exit` made before the report replaces it and the earlier future is never settled -/
+theorem every_wait_future_settles_refuted : ¬ every_wait_future_settles_full := by
+  intro h
+  have := h 0 [.reg 0 (.wait false), .reg 0 .cb, .exit 0 256, .sigchld] 256 (by decide) (by decide)
+    (by simp [Delivered, Spec.sigAfter, Spec.isSigchld])
+  revert this
+  decide
+
+/-! ### the `initialized` flag on the late path (see the comment in `Model.step`) -/
+def InitOk (s : St) : Prop := s.initialized = true ∨ (s.queue = [] ∧ ∀ c, (s.subs c).returncode = none)
+
+theorem tryCleanup_initialized (s : St) (c : Nat) : (tryCleanup s c).initialized = s.initialized := by
+  unfold tryCleanup
+  split <;> rfl
+
+theorem cleanup_fold_initialized (l : List Nat) (s : St) : (l.foldl tryCleanup s).initialized = s.initialized := by
+  induction l generalizing s with
+  | nil => rfl
+  | cons a l ih => simp only [List.foldl_cons, ih, tryCleanup_initialized]
+
+theorem runItem_initialized (s : St) (c : Nat) (qi : QI) : (runItem s c qi).initialized = s.initialized := by
+  cases qi with
+  | late r m code => rfl
+  | status st =>
+    simp only [runItem]
+    unfold setReturncode
+    cases decodeStatus st with
+    | none => rfl
+    | some code =>
+      simp only
+      cases (s.subs c).exitCb with
+      | none => rfl
+      | some rm => rfl
+
+theorem drain_fold_initialized (l : List (Nat × QI)) (s : St) :
+    (l.foldl (fun s e => runItem s e.1 e.2) s).initialized = s.initialized := by
+  induction l generalizing s with
+  | nil => rfl
+  | cons a l ih => simp only [List.foldl_cons, ih, runItem_initialized]
+
+theorem initOk_step (s : St) (op : Op) (h : InitOk s) : InitOk (step s op) := by
+  cases op with
+  | exit d st =>
+    simp only [step]
+    split
+    · rcases h with h | ⟨h1, h2⟩
+      · exact Or.inl h
+      · refine Or.inr ⟨h1, fun c' => ?_⟩
+        simp only [setSub]
+        split
+        · rename_i hc; subst hc; exact h2 _
+        · exact h2 c'
+    · exact h
+  | reg d m =>
+    simp only [step]
+    split
+    · exact Or.inl rfl
+    · exact Or.inl (by rw [tryCleanup_initialized])
+  | sigchld =>
+    simp only [step]
+    split
+    · rename_i hi
+      exact Or.inl (by rw [cleanup, cleanup_fold_initialized]; exact hi)
+    · exact h
+  | drain =>
+    simp only [step, drainQ]
+    rcases h with h | ⟨h1, h2⟩
+    · exact Or.inl (by rw [drain_fold_initialized]; exact h)
+    · rw [h1]
+      exact Or.inr ⟨rfl, h2⟩
+
+/-- **returncode_initialized**: in every reachable state a `Subprocess` whose `returncode` is set lives in a process
+whose SIGCHLD handler is installed — so the model's `initialized := true` on the late-registration path (where the code
+does not call `initialize()`) never changes the flag. -/
+theorem returncode_initialized (ops : List Op) (c : Nat) (code : Int)
+    (h : ((run ops).subs c).returncode = some code) : (run ops).initialized = true := by
+  have : ∀ (ops : List Op) (s : St), InitOk s → InitOk (ops.foldl step s) := by
+    intro ops
+    induction ops with
+    | nil => exact fun s h => h
+    | cons op ops ih => exact fun s h => ih _ (initOk_step s op h)
+  rcases this ops init (Or.inr ⟨rfl, fun _ => rfl⟩) with h1 | ⟨-, h2⟩
+  · exact h1
+  · have := h2 c
+    rw [show ops.foldl step init = run ops from rfl] at this
+    rw [this] at h
+    cases h
 
 end TornadoModel.C42
